@@ -70,6 +70,28 @@ def run(ctx):
             else:
                 ctx.ob('R1', f'contexts.{m}(id) access', True)
     ctx.floor('accesses to the context table keyed by the client id', n_acc, 3)
+    # a context leaves the table only in the delete branch (the request whose payload is None)
+    msg_vars = {st.targets[0].id for st in walk_local(f.node) if isinstance(st, ast.Assign) and isinstance(st.targets[0], ast.Name) and isinstance(st.value, ast.Call) and last_attr(st.value) == 'recv_msg'}
+    pm0 = parent_map(f.node)
+    loops0 = [n for n in walk_local(f.node) if isinstance(n, ast.While)]
+    for n in walk_local(loops0[0] if loops0 else f.node):
+        removal = None
+        if isinstance(n, ast.Call) and last_attr(n) in ('pop', 'popitem', 'clear') and (receiver(n) or '') == 'self.contexts':
+            removal = n
+        if isinstance(n, ast.Delete) and any(isinstance(t, ast.Subscript) and is_self_attr(t.value, 'contexts') for t in n.targets):
+            removal = n
+        if removal is None:
+            continue
+        cur, in_delete = removal, False
+        prev = removal
+        while cur in pm0:
+            prev, cur = cur, pm0[cur]
+            if isinstance(cur, ast.If) and isinstance(cur.test, ast.Compare) and isinstance(cur.test.ops[0], ast.Is) and isinstance(cur.test.left, ast.Name) and cur.test.left.id in msg_vars \
+                    and isinstance(cur.test.comparators[0], ast.Constant) and cur.test.comparators[0].value is None and any(prev is x or any(prev is y for y in ast.walk(x)) for x in cur.body):
+                in_delete = True
+        ctx.check('R1', 'a context is removed from the table only by a delete request', in_delete, 'RemoteServer.run', 'context-removed-outside-delete',
+                  f'`{norm(removal)}` removes a context outside the delete branch: a context can disappear (e.g. the first one, when the reply to a refused duplicate cannot be delivered) '
+                  'although nobody deleted it - its workers die and the id can be registered again', where=loc(f, removal))
     # duplicate -> False reply
     dup = [st for st in walk_local(f.node) if isinstance(st, ast.If) and norm(st.test) == f'{idv} in self.contexts']
     ok = bool(dup) and any(isinstance(x, ast.Assign) and is_name(x.targets[0], 'result') and isinstance(x.value, ast.Constant) and x.value.value is False for x in dup[0].body)
